@@ -13,6 +13,18 @@ WORLD_RULE = ("state = canonical dump of the real PubSub/router/score object gra
 ALL_PROPERTIES = ["C%02d" % i for i in range(1, 21)]
 
 CHECKS = {
+    "C05": {
+        "level": "model_checking", "shards": 7, "deadline_quick": 110, "deadline_thorough": 1800,
+        "engine": "E-WORLD",
+        "technique": "explicit-state model checking of the implementation: BFS by replay around one real node (floodsub, gossipsub) with two observer peers; a quiescence leaf (open gates, let retries fire) judges wire view and ListPeers at every explored state",
+        "rule": WORLD_RULE + "; at every state the leaf event 'quiesce' is applied",
+        "level_text": "every history up to the depth bound over Subscribe (two per topic) / Cancel / Relay / relay-cancel / Topic.Close on two topics, connect / whole-peer disconnect, outbound streams that come up late or fail, "
+                      "single-direction stream resets with the connection kept, one-slot queues with gated writes (announceRetry), remote subscribe/unsubscribe and time advances; at every state, once quiet, "
+                      "the last subscription option each observer saw on its current stream must equal the node's true interest and ListPeers must equal the connected interested peers",
+        "level_note": "observers are scripted peers (they do not re-announce spontaneously, like a real node whose own outbound stream stayed up); goroutine-level races between the hello packet and queued announcements inside one step are not enumerated",
+        "assumptions": COMMON_ASSUME,
+        "design_ref": "DESIGN.md §5 C05",
+    },
     "C06": {
         "level": "model_checking", "shards": 5, "deadline_quick": 100, "deadline_thorough": 1500,
         "engine": "E-WORLD",
@@ -133,6 +145,17 @@ CHECKS = {
         "level_note": "interleavings inside the two lock-protected sections of the event log are not enumerated (channel-based signalling)",
         "assumptions": COMMON_ASSUME,
         "design_ref": "DESIGN.md §5 C18",
+    },
+    "C19": {
+        "level": "model_checking", "shards": 5, "deadline_quick": 110, "deadline_thorough": 1800,
+        "engine": "E-WORLD",
+        "technique": "explicit-state model checking of the implementation: BFS by replay around one real node (all three routers) with an in-memory EventTracer whose events drive a trace replayer compared with the node at every state",
+        "rule": WORLD_RULE,
+        "level_text": "every history up to the depth bound over join / leave / relay (two topics, two subscriptions, fanout-only topic), peer churn, remote control, publications, heartbeats and stream resets under floodsub, randomsub and gossipsub; "
+                      "after every event the state rebuilt from the trace (joined topics, peer set, meshes), DELIVER / PUBLISH multiplicities and SEND_RPC metadata are compared with the node and the frames actually received",
+        "level_note": "in-memory tracer only (the JSON / protobuf file tracers' writer loops are not driven); DROP_RPC is counted but not matched one-to-one",
+        "assumptions": COMMON_ASSUME,
+        "design_ref": "DESIGN.md §5 C19",
     },
 }
 
